@@ -365,7 +365,30 @@ def decorate16 (p : Program) : G Program := do
     out := out ++ [setFileDocs f docs]
   return out
 
+/-- scoped link targets that exist both as a top-level path and relative to an enclosing scope of the documented element: the
+    link binds like a type written in the same place — nearest scope first -/
+def shadowedLinkPrograms : List Program :=
+  let file (m : String) (defs : List Def) : SFile := { fileAttrs := [], module := some ⟨[], m⟩, defs := defs }
+  let st (doc : List String) (n : String) (fs : List Field) : Def := .struct doc [] false n fs
+  let fld (n : String) (ty : TRef) : Field := { doc := [], attrs := [], tag := none, name := n, ty := ty }
+  let nm (id : String) : TRef := .mk [] (.named id) false
+  let pr (p : Prim) : TRef := .mk [] (.prim p) false
+  [ [file "Foo" [st [] "Thing" []], file "Bar::Foo" [st [] "Thing" []],
+     file "Bar" [st [" Wraps a {@link Foo::Thing} and a {@link ::Foo::Thing}.", " @see Foo::Thing"] "Wrapper" [fld "thing" (nm "Foo::Thing")]]],
+    [file "Bar" [st [" Wraps a {@link Foo::Thing}.", " @see Foo::Thing"] "Wrapper" [fld "thing" (nm "Foo::Thing")]],
+     file "Bar::Foo" [st [] "Thing" []], file "Foo" [st [] "Thing" []]],
+    [file "Net" [st [] "Port" [], st [] "Net" [fld "Port" (pr .uint16)],
+       .iface [" Opens {@link Net::Port}.", " @see Net::Port"] [] "I" []
+         [{ doc := [" Uses {@link Net::Port} and {@link ::Net::Port}.", " @see Net::Port"], attrs := [], idempotent := false, name := "op", params := [], ret := .none : Op }]]],
+    [file "A" [st [] "X" []], file "A::A" [st [" {@link A::X} {@link X} {@link ::A::X}"] "X" [], st [" {@link A::X}", " @see A::A::X"] "Y" []]],
+    [file "A::B" [.enum [] [] false false "E" none [{ doc := [" {@link E::M} {@link B::E::M} {@link M}"], attrs := [], name := "M", fields := none, value := none }]],
+     file "B" [.enum [] [] false false "E" (some (pr .uint8)) [{ doc := [], attrs := [], name := "M", fields := none, value := none }]]] ]
+
 def genC16p (tier : Tier) (seed : Nat) (o : Out) : IO Unit := do
+  for p in shadowedLinkPrograms do
+    for style in [0, 2] do
+      let texts := p.zipIdx.map fun (f, i) => (render style (seed + i) (fileItems f)).1
+      o.line (compileCase "shadowed-links" "c16:docs" "-" texts ((docsDump p).getD "panic"))
   let thorough := tier == .thorough
   let nProg := if thorough then 8000 else 700
   let mut r := Rng.mk' (seed + 1616)
